@@ -73,6 +73,9 @@ def us_std_atm_pressure_from_altitude(z):
     (1976) US Standard Atmosphere. Derived from Pressure from altitude equation.
     """
     z = np.asarray(z)
+    if not np.issubdtype(z.dtype, np.floating):
+        # integer altitudes (e.g. a plain 5): the working arrays below must be floating point
+        z = z.astype(np.float64)
     x = z < np.inf
     h = np.empty_like(z)
     h[x] = z[x] * const.earth_radius / (z[x] + const.earth_radius)
